@@ -36,7 +36,8 @@ def cases(tier, seed):
                 ncuts = 2 if (tier == "thorough" and len(lens) <= 2) else 1
                 if tier == "quick" and len(lens) == 3 and end % 2:
                     continue
-                out.append({"h": "H18", "layout": name, "sym": sym_idx, "end": end, "cuts": ncuts, "_w": 1 + end // 8})
+                modes = ["spread", "prefed", "eof-with-last"] if (len(lens) <= 2 or tier == "thorough") else ["spread"]
+                out.append({"h": "H18", "layout": name, "sym": sym_idx, "end": end, "cuts": ncuts, "modes": modes, "_w": 1 + end // 8})
     if tier == "thorough":
         for k, plen in ((1, 4096), (2, 1000), (8, 17), (3, 255)):
             out.append({"h": "H18L", "n": k, "plen": plen, "_w": 4})
@@ -216,7 +217,7 @@ def h18(E, M, case):
     cuts = sorted(E.choice("cut%d" % k, L + 1) for k in range(case["cuts"])) if L else []
     bounds_ = [0] + cuts + [L]
     chunks = [raw[a:b] for a, b in zip(bounds_, bounds_[1:])]
-    got, term = _run_stream(E, M, loop, chunks, E.pick("feed", ["spread", "prefed", "eof-with-last"]))
+    got, term = _run_stream(E, M, loop, chunks, E.pick("feed", case["modes"]))
     loop_clean(E, loop)
     dmsgs, dterm = _datagram_view(E, M, raw)
     _compare(E, M, got, term, dmsgs, dterm)
